@@ -182,7 +182,7 @@ func Load(repo string, cfg BuildConfig) (*Program, error) {
 			fmt.Fprintln(os.Stderr, "fresh:", ff.obj.FullName())
 		}
 	}
-	if ref != nil && os.Getenv("VERIF_NO_INLINE") == "" && len(freshFunctions(ref, cfg.Name, byPath)) > 0 {
+	if ref != nil && os.Getenv("VERIF_NO_INLINE") == "" && (len(freshFunctions(ref, cfg.Name, byPath)) > 0 || len(freshClosureVars(ref, cfg.Name, byPath)) > 0) {
 		lightBase = byPath
 		ov2, notes := deextract(repo, cfg, ref, overlay, nil)
 		lightBase = nil
